@@ -57,7 +57,7 @@ func runD(ms []string, steps []stepD, verbose bool) (sig, what string) {
 			continue
 		}
 		log = log[:0]
-		class, _ := runB(vos, caseB{Op: s.Op, P: s.P, Q: s.Q})
+		class, _ := runB(vos, caseB{Op: s.Op, P: s.P, Q: s.Q}, "")
 		if verbose {
 			fmt.Printf("step %d: cwd %q %s(%q,%q) -> %s, recorded %v\n", i, cwd, s.Op, s.P, s.Q, class, log)
 		}
